@@ -79,6 +79,19 @@ pub fn run(ctx: &mut Ctx) {
         names.push(n.to_string());
     }
     names.sort();
+    // a second instruction set built in ANOTHER ORDER of API calls: load, parse something, and only
+    // then register the embedding program's instructions (a lookup structure built lazily at the first
+    // parse must still see them)
+    let mut is_late = pushr::push::instructions::InstructionSet::new();
+    is_late.load();
+    is_late.add("EXEC.CMD".to_string(), pushr::push::instructions::Instruction::new(crate::mon::exec_cmd_stub));
+    {
+        let mut warm = PushState::new();
+        let _ = guarded(|| PushParser::parse_program(&mut warm, &is_late, "( 1 INTEGER.DUP foo )"));
+    }
+    for n in CUSTOM_INSTRUCTIONS.iter() {
+        is_late.add(n.to_string(), pushr::push::instructions::Instruction::new(|_s: &mut PushState, _c: &InstructionCache| {}));
+    }
     let cache = sorted_cache(&is);
     let n = ctx.n(40000, 6000000);
     for k in 0..n as u64 {
@@ -114,7 +127,7 @@ pub fn run(ctx: &mut Ctx) {
         if text1 != items[0].printed() {
             ctx.rec.violation("C11", "Item::to_string|format", &format!("printed {:?} but the documented form is {:?}", text1, items[0].printed()), "");
         }
-        check_roundtrip(ctx, "Item::to_string", &items[0..1], &text1, &is);
+        check_roundtrip(ctx, "Item::to_string", &items[0..1], &text1, if k % 2 == 1 { &is_late } else { &is });
         // path 2: PushStack::to_string with several items (EXEC and CODE print the same way)
         let mut st = PushState::new();
         for it in items.iter().rev() {
@@ -122,7 +135,7 @@ pub fn run(ctx: &mut Ctx) {
             st.code_stack.push(it.to_item());
         }
         let text2 = st.exec_stack.to_string();
-        check_roundtrip(ctx, "PushStack::to_string", &items, &text2, &is);
+        check_roundtrip(ctx, "PushStack::to_string", &items, &text2, if k % 2 == 1 { &is_late } else { &is });
         // path 3: CODE.PRINT
         let o = step_named(&mut st, &mut is, &cache, "CODE.PRINT");
         if let Some(p) = o.panic {
